@@ -1217,7 +1217,11 @@ def run_case(R, spec, mode, nontrivial=True):
         seen.add(fid)
         if R.fail_counts.get(fid, 0) < 3:
             small = minimize(spec, mode, fid)
-            what = [w for f, w in safe_check(small, mode) if f == fid][0]
+            ws = [w for f, w in safe_check(small, mode) if f == fid]
+            if ws:
+                what = ws[0]
+            else:           # not reproducible on its own (state carried between trees): keep the tree as found
+                small = spec
             R.fail(fid, what + " | tree " + json.dumps(small), {"tree": small, "mode": mode, "found_in": spec},
                    {"fn": "replay_tree", "args": [small, mode, fid]})
         else:
